@@ -13,11 +13,20 @@ def UserOnly (K : Consts) : List TsOp → Prop
   | .createType _ _ _ :: rest => UserOnly K rest
   | .createFeature dom _ _ _ _ _ :: rest => K.predefined.contains dom = false ∧ dom.contains '.' = true ∧ UserOnly K rest
 
+/-- exactly what `Feature.__eq__` (`featureEq`) compares: name, description, range name, element type name (absent = TOP) -/
+def featKey (f : Feature) : String × Option String × String × String :=
+  (f.name, f.descr, f.range, f.elem.getD TOP)
+
 /-- two records declare the same: supertype, description, children and *effective* features (as sets: which of two
-    identical definitions on one chain counts as the own one may depend on the order in which they were made) -/
+    identical definitions on one chain counts as the own one may depend on the order in which they were made).
+    The effective features are compared up to `Feature.__eq__` (`featKey`): when a type and one of its ancestors both
+    declare the same feature, the original exposes whichever definition was made first while the merge always exposes the
+    ancestor's, and the two records differ in `domain` (and possibly `multi` / `reserved`), which `Feature.__eq__`
+    ignores.  Counterexample to the strict version: `createType x.A; createType x.B < x.A; createFeature x.B f Integer;
+    createFeature x.A f Integer` — the original's effective `f` on `x.B` has domain `x.B`, the merged one's `x.A`. -/
 def SameDecl (t t' : TypeRec) : Prop :=
   t'.name = t.name ∧ t'.super = t.super ∧ t'.descr = t.descr ∧ t'.children.Perm t.children ∧
-  (allFeatures t').Perm (allFeatures t)
+  ((allFeatures t').map featKey).Perm ((allFeatures t).map featKey)
 
 /-- name-keyed equivalence of two type systems -/
 def SameTs (ts ts' : TypeSystem) : Prop :=
